@@ -135,6 +135,38 @@ impl Cx {
     }
 }
 
+fn cond_json(e: &Expr) -> serde_json::Value {
+    use serde_json::json;
+    match e {
+        Expr::Paren(p) => cond_json(&p.expr),
+        Expr::Group(g) => cond_json(&g.expr),
+        Expr::Unary(u) if matches!(u.op, UnOp::Not(_)) => json!({"not": cond_json(&u.expr)}),
+        Expr::Binary(b) if matches!(b.op, BinOp::Or(_)) => json!({"or": [cond_json(&b.left), cond_json(&b.right)]}),
+        Expr::Binary(b) if matches!(b.op, BinOp::And(_)) => json!({"and": [cond_json(&b.left), cond_json(&b.right)]}),
+        Expr::Let(l) => json!({"atom": format!("let {} = {}", txt(&l.pat), txt(&l.expr))}),
+        _ => json!({"atom": txt(e)}),
+    }
+}
+fn cond_of_text(t: &str) -> serde_json::Value {
+    match syn::parse_str::<Expr>(t) { Ok(e) => cond_json(&e), Err(_) => serde_json::json!({"atom": t}) }
+}
+fn to_json(ns: &[N]) -> serde_json::Value {
+    use serde_json::json;
+    serde_json::Value::Array(ns.iter().map(|n| match n {
+        N::Cons(k, c) => json!({"k": "cons", "kind": k, "body": to_json(c)}),
+        N::Tagged(x, t, c) => json!({"k": "tagged", "explicit": x, "tag": t, "body": to_json(c)}),
+        N::Prim(m, a) => json!({"k": "prim", "method": m, "args": a}),
+        N::Call(f, a, cl) => json!({"k": "call", "callee": f, "args": a, "values": cl.iter().map(|c| to_json(c)).collect::<Vec<_>>()}),
+        N::If(c, t, f) => json!({"k": "if", "cond": cond_of_text(c), "cond_text": c, "then": to_json(t), "else": to_json(f)}),
+        N::Match(s, arms) => json!({"k": "match", "on": s, "arms": arms.iter().map(|(p, b)| json!({"pat": p, "body": to_json(b)})).collect::<Vec<_>>()}),
+        N::For(p, it, b) => json!({"k": "for", "pat": p, "iter": it, "body": to_json(b)}),
+        N::Let(nm, e) => json!({"k": "let", "name": nm, "expr": e, "cond": cond_of_text(e)}),
+        N::Return(e) => json!({"k": "return", "expr": e}),
+        N::Cfg(c, b) => json!({"k": "cfg", "pred": c, "body": to_json(b)}),
+        N::Opaque(s) => json!({"k": "opaque", "text": s}),
+    }).collect())
+}
+
 fn show(ns: &[N], ind: usize) {
     let p = " ".repeat(ind);
     for n in ns {
@@ -160,8 +192,12 @@ fn run_fn(sig: &Signature, block: &Block, owner: &str) {
     let r = cx.block(block);
     fn nontrivial(ns: &[N]) -> bool { ns.iter().any(|n| !matches!(n, N::Let(..) | N::Return(..))) }
     if !nontrivial(&r) { return; }
-    println!("=== {}{} ===", owner, sig.ident);
-    show(&r, 0);
+    if std::env::var("SKEL_JSON").is_ok() {
+        println!("{}", serde_json::json!({"unit": format!("{}{}", owner, sig.ident), "body": to_json(&r)}));
+    } else {
+        println!("=== {}{} ===", owner, sig.ident);
+        show(&r, 0);
+    }
 }
 
 fn main() {
